@@ -1,5 +1,6 @@
 """Symbolic NNX object-graph builder + an independent reference model (shared by
 C03, C04, C08)."""
+import typing as tp
 import numpy as np
 from flax import nnx
 
@@ -15,12 +16,18 @@ class Stat(nnx.Variable):
   pass
 
 
+class Rec(tp.NamedTuple):
+  """a generic pytree attribute whose field order is not alphabetical"""
+  total: tp.Any
+  count: tp.Any
+
+
 SRC = ['M0', 'M1', 'L', 'D']                       # edge sources
 DST = ['M0', 'M1', 'L', 'P0', 'B0', 'static', 'array', 'P1', 'D', 'M2']
 NSRC_Q, NDST_Q = 3, 7
 
 
-def build(edges, v0, v1, v2, base=True, table=False):
+def build(edges, v0, v1, v2, base=True, table=False, record=False):
   """edges: list of (src, dst, hi) concrete small ints (after pick).  Base structure
   (when base): M0.child = M1, M0.items = L, M0.p = P0, M1.b = B0.  Every extra edge
   adds an attribute / list element / dict entry, so aliasing, self references and
@@ -41,6 +48,8 @@ def build(edges, v0, v1, v2, base=True, table=False):
   if table:
     # int-keyed container whose keys order differently as numbers and as strings
     o['M0'].table = {2: nnx.Param(v0 + 50), 10: nnx.Param(v1 + 60)}
+  if record:
+    o['M0'].rec = Rec(total=nnx.Param(v0 + 70), count=nnx.Param(v1 + 80))
   for i, (s, d, hi) in enumerate(edges):
     src, dst = o[SRC[s]], o[DST[d]]
     if isinstance(src, list):
